@@ -2,8 +2,9 @@
 
 Programs: every call sequence of <=4 (quick) / <=6 (thorough) calls over {begin, send(p0), send(p1),
 send_offsets_to_transaction, commit, abort, `async with producer.transaction()` left normally / by an exception},
-generated over the reference model vf.txn_model (at most one call per sequence is illegal in the fault-free model:
-an illegal call leaves the model state unchanged, so further illegal calls only repeat an equivalent prefix).
+generated over the reference model vf.txn_model (quick: at most one call per sequence is illegal in the fault-free
+model; thorough: all-legal sequences up to 6 calls, one illegal call up to 5, two up to 4 - an illegal call leaves the
+model state unchanged, so further illegal calls only repeat an equivalent prefix).
 Each program runs on the real transactional AIOKafkaProducer against the simulated cluster under the default schedule
 of both baselines (net-eager, app-eager), without fault and with exactly one error injected at each transactional
 request it makes (explorer budget f=1): abortable (TOPIC / GROUP_AUTHORIZATION_FAILED as ACL *state*), fatal (fencing by a
@@ -26,9 +27,11 @@ FAULTS = ["acl-topic", "acl-group", "fence", "oos", "acl-txn", "retriable"]
 def scenarios(ctx):
     quick = ctx.quick
     out = []
-    seqs = txn_model.sequences(4 if quick else 6, 1)
-    if not quick:
-        seqs = sorted(set(seqs) | set(txn_model.sequences(4, 2)), key=lambda s: (len(s), s))
+    if quick:
+        seqs = txn_model.sequences(4, 1)
+    else:  # <=6 calls all legal, <=5 calls with one illegal call, <=4 calls with two
+        seqs = sorted(set(txn_model.sequences(6, 0)) | set(txn_model.sequences(5, 1)) | set(txn_model.sequences(4, 2)),
+                      key=lambda s: (len(s), s))
     for seq in seqs:
         for base in ("net", "app"):
             name = f"{base}:" + ",".join(seq)
@@ -37,8 +40,8 @@ def scenarios(ctx):
 
 
 def run(ctx):
-    ctx.rule = ("every call sequence up to the length bound generated over the reference model (<=1 illegal call, thorough: "
-                "<=2 up to length 4), x {net-eager, app-eager default schedule} x {no fault, one abortable / fatal / retriable "
+    ctx.rule = ("every call sequence generated over the reference model (quick: <=4 calls, <=1 illegal; thorough: <=6 calls all "
+                "legal, <=5 with one illegal call, <=4 with two) x {net-eager, app-eager default schedule} x {no fault, one abortable / fatal / retriable "
                 "error at each transactional request or Produce the program causes}; each executed on the real producer")
     ctx.assumptions += [
         "simulated transaction coordinator follows DESIGN Appendix A; authorization errors and fencing are cluster state",
